@@ -660,6 +660,35 @@ def interleaved(lab):
     return plan(), d
 
 
+def interleaved_sparse(lab):
+    """Two interleaved runs with few checkpoints: run b takes points before and after run a is closed, with no checkpoint in between."""
+    from bluesky.utils import Msg
+
+    d = _std(lab)
+    det = d["det"]
+
+    def pt(k):
+        yield Msg("create", name="primary", run=k)
+        yield Msg("read", det, run=k)
+        yield Msg("save", run=k)
+
+    def plan():
+        yield Msg("open_run", run="a", key="a")
+        yield Msg("open_run", run="b", key="b")
+        yield Msg("checkpoint")
+        yield from pt("a")
+        yield from pt("b")
+        yield Msg("null", None, "w1")
+        yield Msg("close_run", run="a")
+        yield from pt("b")
+        yield Msg("null", None, "w2")
+        yield Msg("checkpoint")
+        yield from pt("b")
+        yield Msg("close_run", run="b")
+
+    return plan(), d
+
+
 def retry_close(lab):
     """A run whose close_run may fail (a monitor is still active); the plan catches the error and closes the run again as failed."""
     from bluesky.utils import Msg
@@ -716,5 +745,5 @@ def clearing_prelude(lab):
     return [Msg("checkpoint"), Msg("clear_checkpoint"), Msg("null", None, "prelude")]
 
 
-CORPUS = dict(cleared_rewindable=cleared_rewindable, status_stage=status_stage, configure_late=configure_late, cleared_sleep=cleared_sleep, wait_move_on=wait_move_on, retry_close=retry_close, interleaved=interleaved, monitor_meta=monitor_meta, monitor_mid=monitor_mid, stubbed=stubbed, sparse=sparse, two_runs_cleared=two_runs_cleared, late_wait=late_wait, norewind_section=norewind_section, configure_mid=configure_mid, count_norewind=count_norewind, declared=declared, double_stage=double_stage, failpause=failpause, defer_failpause=defer_failpause, count2=count2, scan2=scan2, scan3=scan3, rel_scan2=rel_scan2, list_scan2=list_scan2, grid2x2=grid2x2, adaptive=adaptive, tune=tune,
+CORPUS = dict(interleaved_sparse=interleaved_sparse, cleared_rewindable=cleared_rewindable, status_stage=status_stage, configure_late=configure_late, cleared_sleep=cleared_sleep, wait_move_on=wait_move_on, retry_close=retry_close, interleaved=interleaved, monitor_meta=monitor_meta, monitor_mid=monitor_mid, stubbed=stubbed, sparse=sparse, two_runs_cleared=two_runs_cleared, late_wait=late_wait, norewind_section=norewind_section, configure_mid=configure_mid, count_norewind=count_norewind, declared=declared, double_stage=double_stage, failpause=failpause, defer_failpause=defer_failpause, count2=count2, scan2=scan2, scan3=scan3, rel_scan2=rel_scan2, list_scan2=list_scan2, grid2x2=grid2x2, adaptive=adaptive, tune=tune,
               fly1=fly1, bare=bare, cleanup=cleanup, staged_monitor=staged_monitor, nested_runs=nested_runs, flymon=flymon)
